@@ -490,6 +490,22 @@ def _binding_shapes(fn: ast.FunctionDef):
     return out
 
 
+def _exclusive_names(fn: ast.FunctionDef, a_name: str, b_name: str) -> bool:
+    """All occurrences of a_name lie in one branch of some if statement and all of b_name in the other."""
+    occ_a = [x for x in ast.walk(fn) if isinstance(x, ast.Name) and x.id == a_name]
+    occ_b = [x for x in ast.walk(fn) if isinstance(x, ast.Name) and x.id == b_name]
+    if not occ_a or not occ_b:
+        return False
+    for node in ast.walk(fn):
+        if isinstance(node, ast.If) and node.orelse:
+            in_body = {id(x) for st_ in node.body for x in ast.walk(st_)}
+            in_else = {id(x) for st_ in node.orelse for x in ast.walk(st_)}
+            for s1, s2 in ((in_body, in_else), (in_else, in_body)):
+                if all(id(x) in s1 for x in occ_a) and all(id(x) in s2 for x in occ_b):
+                    return True
+    return False
+
+
 def _role_score(fn: ast.FunctionDef, ref_exprs: set, t: str, x: str) -> int:
     """How many expressions of fn that mention local t read as an expression of the reference once t is called x."""
     import copy as _copy
@@ -544,9 +560,8 @@ def _rename_locals(fn: ast.FunctionDef, template, ref_fn=None) -> None:
                 for x, y in zip(tn, cn):
                     if y in known_names or y == x:
                         continue
-                    if any(x in ns for _s, ns in cur):
-                        continue                # the reference name is bound elsewhere in the current function already
-                    cands.append((y, x))
+                    cands.append((y, x))        # (a reference name that is bound elsewhere in the function is accepted below only
+                                                #  when the two live in opposite branches of an if)
     # several candidates for one name (or one reference name wanted by several locals): the one whose uses read as the
     # reference's decides; a tie leaves the names alone
     ref_exprs = set()
@@ -1612,8 +1627,9 @@ def _rename_by_role(fn: ast.FunctionDef, ref_fn: dict, known: set) -> None:
     if any(isinstance(n, (ast.Global, ast.Nonlocal, ast.Lambda)) or (isinstance(n, ast.FunctionDef) and n is not fn) for n in ast.walk(fn)):
         return
     present = {n.id for n in ast.walk(fn) if isinstance(n, ast.Name)} | {a.arg for a in ast.walk(fn) if isinstance(a, ast.arg)}
-    absent = sorted(x for x in known if x not in present and x not in params)
     fresh = sorted({n.id for n in ast.walk(fn) if isinstance(n, ast.Name) and isinstance(n.ctx, ast.Store)} - known - params)
+    # a reference local is available when the function does not mention it at all, or only in the branch opposite to the fresh one
+    absent = sorted(x for x in known if x not in params and (x not in present or any(_exclusive_names(fn, t_, x) for t_ in fresh)))
     if not absent or not fresh:
         return
     import copy as _copy
@@ -1622,6 +1638,8 @@ def _rename_by_role(fn: ast.FunctionDef, ref_fn: dict, known: set) -> None:
         hosts = [n for n in ast.walk(fn) if isinstance(n, (ast.Call, ast.BinOp, ast.Compare, ast.Subscript, ast.Attribute))
                  and any(isinstance(y, ast.Name) and y.id == t for y in ast.walk(n))]
         for x in absent:
+            if x in present and not _exclusive_names(fn, t, x):
+                continue
             score = 0
             for h in hosts:
                 c = _copy.deepcopy(h)
@@ -1779,7 +1797,7 @@ def _inline_fresh_temps(fn: ast.FunctionDef, known: set, multi: bool = True) -> 
             for i, st in enumerate(blk):
                 # a fresh local that nobody reads, computed without calling anything: the assignment goes
                 if isinstance(st, ast.Assign) and len(st.targets) == 1 and isinstance(st.targets[0], ast.Name) and st.targets[0].id not in known \
-                        and st.targets[0].id not in params and st.targets[0].id not in loads and not _impure_calls(st.value) and len(blk) > 1 \
+                        and st.targets[0].id not in params and st.targets[0].id not in loads and not _harmful_calls(st.value) and len(blk) > 1 \
                         and not any(isinstance(x, (ast.NamedExpr, ast.Await, ast.Yield, ast.YieldFrom)) for x in ast.walk(st.value)):
                     del blk[i]
                     changed = True
@@ -2029,6 +2047,7 @@ def canonicalise(tree: ast.Module, rel: str = "") -> ast.Module:
                             canon.sink_use_into_branches(n, rf, known)
                             canon.enumerate_to_counter(n, rf, known)
                             canon.dict_iteration_forms(n, rf)
+                            canon.unroll_literal_loops(n, rf, known)
                             canon.hoist_common_tail(n, rf)
                             canon.normalise_control_flow(n, rf.get("tests", []), rf.get("forms", {}))
                             canon.adopt_reference_tests(n, rf)
